@@ -615,10 +615,13 @@ class Ctx:
         ev = {"property_id": self.prop, "tier": "thorough" if self.tier == "thorough" else "quick",
               "seed": self.seed, "level": self.level, "coverage": c, "assumptions": self.assumptions,
               "wall_s": round(time.time() - self.t0, 2), "violations": len(self.violations)}
-        os.makedirs(os.path.join(VERIF, "evidence"), exist_ok=True)
-        tmp = os.path.join(VERIF, "evidence", ".%s.%d.tmp" % (self.prop, os.getpid()))
+        # evidence/<id>.json describes runs against /repo itself; runs against another checkout
+        # (VERIF_REPO: mutants, seeded defects) are recorded under build/ instead
+        evdir = os.path.join(VERIF, "evidence") if REPO == "/repo" else os.path.join(VERIF, "build", "evidence-other")
+        os.makedirs(evdir, exist_ok=True)
+        tmp = os.path.join(evdir, ".%s.%d.tmp" % (self.prop, os.getpid()))
         json.dump(ev, open(tmp, "w"), indent=1, default=str)
-        os.replace(tmp, os.path.join(VERIF, "evidence", self.prop + ".json"))
+        os.replace(tmp, os.path.join(evdir, self.prop + ".json"))
         if not self.keep:
             shutil.rmtree(self.run, ignore_errors=True)
         self.log("done: states=%d transitions=%d traces=%d events=%d evaluations=%d distinct=%d violations=%d wall=%.1fs" % (
